@@ -25,9 +25,13 @@ at the level of the 32-bit word stream of one column record (either byte order),
 at the level of the word stream of a file, `file_roundtrip_bytes` at the level of bytes with names and
 format detection.  For ASCII see the second half of the file.
 
-The places where the unchanged code does **not** satisfy the property are explicit:
-* `pack_fits_i32`: the packed nonbigmat string header fits `struct.pack('i', …)` iff
-  `L + 1 < 32768`; `nonbigmat_overflow_example` is the 16384-row real string (finding F2);
+Findings F2 and F3 are repaired in /repo (27f7d6b, 7ee1407); what they were stays visible:
+* `pack_fits_i32`: a packed nonbigmat string header fits `struct.pack('i', …)` iff `L + 1 < 32768`;
+  `nonbigmat_overflow_example` is the 16384-row real string (finding F2).  The writer now splits such a string
+  (`_split_strings`): the writer model is `encMatWordsFx` of Model/Op4Fixed.lean and the whole-file theorems for it are in
+  Props/C04Fix.lean (`file_writes_fixed`, `file_roundtrip_binary_domain_fixed`, `file_roundtrip_bytes_domain_fixed`);
+  `encMatWords` below is the encoder without the split, which is the writer whenever no string exceeds
+  `16383 // multiplier` rows (`writer_eq_unsplit`), and `file_writes_iff` says where that encoder is defined;
 * (repaired in /repo, fix 7ee1407; the model follows the repaired code) `fmtE_width`: `fmt % x` has the announced width
   `digits + 7` iff it is not a negative value with a three-digit exponent (`ascii_overflow_example`: `-2.5e-120`, finding
   F3); `numform(x)` prints such a value with one digit less and always has the announced width.
